@@ -1,4 +1,4 @@
-//@ props: C07
+//@ props: C07,C08
 //@ target: src/ops/delay.rs
 // C07 at the API level (independent of helper functions and of how the operators are written): the
 // real `delay_subscription` / `subscribe_on` operators are run on a
@@ -96,4 +96,34 @@ fn subscription_movers_schedule_one_task() {
     assert!(sched.delays.borrow().0 == 1 && sched.delays.borrow().1[0].is_none());
   }
   expect_history(&log, &s);
+}
+
+// ---- timer / interval at the API level, on a virtual clock ------------------------------------------
+static mut VCLOCK_NS: u64 = 1_000_000_000;
+fn vclock_stub() -> std::time::Instant {
+  unsafe {
+    let secs = (VCLOCK_NS / 1_000_000_000) as i64;
+    let nanos = (VCLOCK_NS % 1_000_000_000) as u32;
+    // std::time::Instant is a (seconds: i64, nanoseconds: u32 < 1e9) pair on unix
+    std::mem::transmute::<(i64, u32), std::time::Instant>((secs, nanos))
+  }
+}
+
+// [C08] timer(item, d): however much time passes between BUILDING the observable and subscribing it,
+// the one task is submitted with exactly Some(d) (the due time is "d after subscription"), and when
+// it runs the item and the completion are delivered
+#[kani::proof]
+#[kani::unwind(8)]
+#[kani::stub(std::time::Instant::now, vclock_stub)]
+fn timer_counts_its_delay_from_subscription() {
+  let d = any_duration();
+  let item: u8 = kani::any();
+  let sched = RecSched::new();
+  let log = new_log();
+  let t = crate::observable::timer(item, d, sched.clone());
+  let gap: u32 = kani::any();
+  unsafe { VCLOCK_NS += gap as u64; }                 // time passes before the subscription
+  let _u = t.actual_subscribe(Probe::new(&log));
+  assert!(sched.delays.borrow().0 == 1 && sched.delays.borrow().1[0] == Some(d));
+  assert!(count(&log) == 2 && at(&log, 0) == Some(Ev::Next(item)) && at(&log, 1) == Some(Ev::Complete));
 }
